@@ -101,9 +101,14 @@ def resolved(view):
     Interp(_MOD, _prims(_MOD)).call_function(q, r)
     if r.base_offset:
         raise Reject(f"constant base offsets left after simplify: {r.base_offset}")
-    if r.kind == "Slice":
-        return list(range(r.stop, r.start + 1))
-    return [r.offset]
+    first = list(range(r.stop, r.start + 1)) if r.kind == "Slice" else [r.offset]
+    # the back end simplifies a reference every time it is written (an object used twice is simplified twice):
+    # simplifying again must not move it
+    Interp(_MOD, _prims(_MOD)).call_function(q, r)
+    again = list(range(r.stop, r.start + 1)) if r.kind == "Slice" else [r.offset]
+    if again != first or r.base_offset:
+        raise Reject(f"simplify() is not idempotent: bits {first[0]}..{first[-1]} after the first call, {again[0]}..{again[-1]} after the second")
+    return first
 
 
 def _prims(mod):
